@@ -61,6 +61,9 @@ def shards(tier):
                     out.append((flavour, nc, em, ff, None))
         for dec in DECORATORS:
             out.append((flavour, 1, False, False, dec))
+        # a class-level force_failure ("known broken: fail whatever the tests do") on a decorated test
+        for dec in ("skip_method", "skip_class", "xfail_decorator"):
+            out.append((flavour, 1, False, True, dec))
     return out
 
 
@@ -175,7 +178,7 @@ def effective_kinds(config, model):
     """Flattened kinds of the exceptions user code raised, as RunTest sees them."""
     out = []
     for stage, k in model.raised:
-        if config.decorator == "xfail_decorator" and stage == "test" and k not in pg.BASE_KINDS:
+        if config.decorator == "xfail_decorator" and stage == "test" and k not in pg.BASE_KINDS + pg.NON_EXCEPTION_KINDS:
             out.append((stage, pg.XFAIL))
             continue
         for f in pg.FLATTEN[k]:
@@ -185,7 +188,9 @@ def effective_kinds(config, model):
         if not any(stage == "test" for stage, _ in model.raised):
             out.append(("test", pg.UXSUCCESS))
             out.sort(key=lambda sk: 0 if sk[0] in ("setUp", "setUp.pre") else 1 if sk[0] == "test" else 2)
-    if config.force_failure or ("test" in ran and config.expect_mismatch is True) or ("c:1" in ran and config.expect_mismatch == "cleanup"):
+    if model.skipped_by_decorator:
+        pass  # nothing ran, the skip is the one outcome
+    elif config.force_failure or ("test" in ran and config.expect_mismatch is True) or ("c:1" in ran and config.expect_mismatch == "cleanup"):
         # the forced failure is raised after everything else (also when setUp did not return
         # normally: a failed expectation must not be lost because setUp went on to skip)
         out.append(("forced", pg.FAIL))
